@@ -483,6 +483,54 @@ func liftMovedField(name, fld string, base ssa.Value) (string, ssa.Value, bool) 
 	}
 	outer, ok := base.(*ssa.FieldAddr)
 	if !ok {
+		// inside a method of the new struct type (`func (mf *mappedFile) release()`): the receiver stands
+		// for the one pinned struct that holds a value of this type and used to have the field itself
+		if prm, isPrm := base.(*ssa.Parameter); isPrm && prm.Parent() != nil && prm.Parent().Pkg != nil {
+			inner := namedOf(derefType(prm.Type()))
+			if inner == nil {
+				return "", nil, false
+			}
+			owner := ""
+			sc := prm.Parent().Pkg.Pkg.Scope()
+			for on, pf := range pinnedFields {
+				tn, _ := sc.Lookup(on).(*types.TypeName)
+				if tn == nil {
+					continue
+				}
+				ost, isS := tn.Type().Underlying().(*types.Struct)
+				if !isS {
+					continue
+				}
+				holds, hasOwn := false, false
+				for i := 0; i < ost.NumFields(); i++ {
+					ft := ost.Field(i).Type()
+					if pt, ok := ft.Underlying().(*types.Pointer); ok {
+						ft = pt.Elem()
+					}
+					if types.Identical(ft, inner) {
+						holds = true
+					}
+					if ost.Field(i).Name() == fld {
+						hasOwn = true
+					}
+				}
+				had := false
+				for _, f := range pf {
+					if strings.HasPrefix(f, fld+" ") {
+						had = true
+					}
+				}
+				if holds && had && !hasOwn {
+					if owner != "" {
+						return "", nil, false // ambiguous
+					}
+					owner = on
+				}
+			}
+			if owner != "" {
+				return owner, base, true
+			}
+		}
 		return "", nil, false
 	}
 	ost := derefType(outer.X.Type())
